@@ -105,6 +105,8 @@ structure Req where
 
 inductive RErr where
   | mismatch | unknownHash | notRunning | alreadyRunning | noKey | notInGroup
+  /-- `chain.NewChainInfo(nil)`: nil dereference (recovered by the gRPC middleware / the harness) -/
+  | nilGroupPanic
   deriving DecidableEq, Repr
 
 /-! ### drand_daemon_helper.go -/
@@ -257,7 +259,10 @@ def dkgCompleted (s : State) (id : Id) (g : Group) : State × Except RErr Unit :
     -- c.dkgCallback
     let beaconID := canon g.gid
     match aget beaconID s.procs with
-    | some bp => (addBeaconHandler s beaconID beaconID bp, .ok ())
+    | some bp =>
+      -- AddBeaconHandler dereferences bp.group (only another id's process can still be without a group here)
+      if bp.group.isNone then (s, .error .nilGroupPanic)
+      else (addBeaconHandler s beaconID beaconID bp, .ok ())
     | none => (s, .ok ())
 
 /-! ### handler/http/server.go -/
